@@ -1,4 +1,5 @@
 """C06 -- JSON reader accepts documented alternative forms and rejects invalid ones."""
+import json
 import random
 import threading
 from concurrent.futures import ThreadPoolExecutor
@@ -105,6 +106,22 @@ def run(ctx):
             elif verdict != g:
                 # correspondence: verdict (ok / reject) and TL1 re-encoding of what was read
                 umism.append((u.name, op, verdict, g))
+            if g.startswith("ok ") and txt != "-":
+                # oracle on Go only (rejection rules, top level): an object the reader accepted for a struct type has
+                # neither a member that is no field of the type nor a repeated member
+                x = ju.jins[int(t)]
+                if x["kind"] == "struct" and not x.get("isTypedef"):
+                    try:
+                        pairs = json.loads(bytes.fromhex(txt).decode("utf-8"), object_pairs_hook=lambda l: l)
+                    except Exception:  # noqa
+                        pairs = None
+                    if isinstance(pairs, list) and all(isinstance(p_, tuple) and len(p_) == 2 for p_ in pairs):
+                        keys = [p_[0] for p_ in pairs]
+                        names = {f_["name"] for f_ in x["fields"]}
+                        if any(k_ not in names for k_ in keys):
+                            ubad.append((u.name, op, f"accepted ({trunc(g, 60)}) although a member is not a field of the type", f"C06:accepted-unknown-key:{u.name}:{n}"))
+                        elif len(set(keys)) != len(keys):
+                            ubad.append((u.name, op, f"accepted ({trunc(g, 60)}) although a member repeats", f"C06:accepted-duplicate-key:{u.name}:{n}"))
             if kind == "alt":
                 # oracle on Go only: an alternative spelling decodes to the same TL1 bytes as the canonical text
                 c = canon_read.get(h)
